@@ -12,8 +12,8 @@ from urllib.parse import urlsplit
 from circuits.web.headers import Headers
 
 
-METHOD_RE = re.compile('^[A-Z0-9$-_.]{1,20}$')
-VERSION_RE = re.compile(r'^HTTP/(\d+).(\d+)$')
+METHOD_RE = re.compile('^[A-Z0-9$\\-_.]{1,20}$')
+VERSION_RE = re.compile(r'^HTTP/(\d+)\.(\d+)$')
 STATUS_RE = re.compile(r'^(\d{3})(?:\s+([\s\w]*))$')
 HEADER_RE = re.compile('[\\x00-\\x1F\\x7F()<>@,;:/\\[\\]={} \\t\\\\"]')
 CTL_RE = re.compile('[\\x00\\r\\n]')
